@@ -253,8 +253,11 @@ def explain_missing(case, missing, results=()):
         return 'nothing-missing'
     late = []
     for r in results or ():
-        late += ((r.get('monitors') or {}).get('ledger') or {}).get(
-            'messages_after_task_left_pool') or []
+        led = (r.get('monitors') or {}).get('ledger') or {}
+        late += led.get('messages_after_task_left_pool') or []
+        # (the same through a poll: the poll reports an output of a task
+        # that its final status has already taken out of the pool)
+        late += led.get('late_polled_outputs_on_removed_tasks') or []
     gt = case['gt']
     roots = {}
     for tid in missing:
